@@ -123,6 +123,9 @@ func Bytes(name string, n int) []byte {
 	if int64(n) != e.Len {
 		fail(3, "VF-TAPE-MISMATCH bytes %q: n=%d tape=%d", name, n, e.Len)
 	}
+	if len(e.B) > n {
+		fail(3, "VF-TAPE-MISMATCH bytes %q: %d recorded bytes for length %d", name, len(e.B), n)
+	}
 	b := make([]byte, n)
 	copy(b, e.B)
 	return b
@@ -208,4 +211,12 @@ func Bound(name string, quick, thorough int) int {
 		return thorough
 	}
 	return quick
+}
+
+// Snapshot returns a private copy of b (same length and capacity contents up to len).
+// The engine implements it in O(1) by sharing the immutable array term.
+func Snapshot(b []byte) []byte {
+	c := make([]byte, len(b))
+	copy(c, b)
+	return c
 }
